@@ -1,6 +1,7 @@
 package main
 
 import (
+	"bytes"
 	"context"
 	"fmt"
 	"net"
@@ -9,6 +10,7 @@ import (
 	"time"
 
 	mail "github.com/wneessen/go-mail"
+	maillog "github.com/wneessen/go-mail/log"
 )
 
 // ---------------------------------------------------------------------------------------------
@@ -64,6 +66,24 @@ func checkTranscript(c *Ctx, evs []Event, committed [][]byte, in interface{}, se
 			seen[idx]++
 		}
 	}
+}
+
+// lockedBuffer: an io.Writer that is safe for concurrent use
+type lockedBuffer struct {
+	mu  sync.Mutex
+	buf bytes.Buffer
+}
+
+func (l *lockedBuffer) Write(p []byte) (int, error) {
+	l.mu.Lock()
+	defer l.mu.Unlock()
+	return l.buf.Write(p)
+}
+
+func (l *lockedBuffer) String() string {
+	l.mu.Lock()
+	defer l.mu.Unlock()
+	return l.buf.String()
 }
 
 func between(s, a, b string) string {
@@ -129,6 +149,12 @@ func init() {
 				if authType != "" {
 					copts = append(copts, mail.WithSMTPAuth(mail.SMTPAuthType(authType)), mail.WithUsername("verif-user"), mail.WithPassword("S3cr3t-Passw0rd!"))
 				}
+				// every fourth round: debug logging through ONE logger of the library's own kind, shared by all
+				// connections of the Client (the writer behind it is safe for concurrent use; the logger must be too)
+				var logSink lockedBuffer
+				if round%4 == 3 {
+					copts = append(copts, mail.WithDebugLog(), mail.WithLogger(maillog.New(&logSink, maillog.LevelDebug)))
+				}
 				client, err := mail.NewClient("verif.example", copts...)
 				if err != nil {
 					c.Note("config: %v", err)
@@ -192,6 +218,14 @@ func init() {
 					}
 					if !msgs[i].IsDelivered() {
 						c.Violate("c13-not-delivered", fmt.Sprintf("message %d not marked delivered", i), in)
+					}
+				}
+				if round%4 == 3 {
+					logged := logSink.String()
+					for i := 0; i < n; i++ {
+						if k := strings.Count(logged, fmt.Sprintf("MAIL FROM:<sender%d@example.com>", i)); k != 1 {
+							c.Violate("c13-log-mixed", fmt.Sprintf("the debug log has %d lines for the MAIL command of message %d (lines of concurrent connections lost, repeated or mixed)", k, i), in)
+						}
 					}
 				}
 				c.Count(true, fmt.Sprintf("%d-%d-%d-%d", mode, n, jitter, round), fmt.Sprintf("mode=%d:n=%d", mode, n))
